@@ -169,10 +169,11 @@ def run(rep, prog, tier):
                     raise AnalysisBroken("%s: %s" % (prog.loc(fn, n), e))
     # (2) kernel
     kfn = prog.fn("contact_model_abstract::compute_node_triangle_distance")
-    for i, r in enumerate(n for n in walk(kfn["body"]) if n.get("k") == "ReturnStmt" and isinstance(n.get("value"), dict)):
+    from . import c05
+    for i, (r, rvalue) in enumerate(c05.result_sites(kfn)):
         try:
             ev = S.SymEval(prog, kfn, lazy_scalars=True)
-            v = ev.ev(r["value"])
+            v = ev.ev(rvalue)
             d2, b = v.items[0], ev.record_of(v.items[1])
             W = Weights(ev, extra_pos={p["name"] for p in kfn["params"]})
             ws = [W.weights(d2)] + [W.weights(x) for x in b.f.values()]
